@@ -1,4 +1,5 @@
 import PyhfModel.Workspace
+import PyhfModel.Prune
 import PyhfProofs.Lemmas.Canon
 import Mathlib.Data.List.Basic
 /-!
@@ -163,5 +164,113 @@ theorem sorted_perm_canonical (xs ys : List (Item α)) (h : xs.Perm ys) (hnd : (
 /-- **sorting is idempotent** -/
 theorem sorted_idempotent (xs : List (Item α)) (hnd : (names xs).Nodup) : sortItems (sortItems xs) = sortItems xs :=
   (sorted_perm_canonical xs (sortItems xs) (sort_perm xs).symm hnd).symm
+
+/-! ### `_prune_and_rename` on the full nested document -/
+
+theorem getD_nil (k : String) : getD [] k = k := rfl
+
+/-- an empty request changes nothing -/
+theorem prune_nothing_is_identity (w : PWs) : applyReq {} w = w := by
+  have hm : ∀ ms : List PMod, applyMods {} ms = ms := by
+    intro ms; simp [applyMods, keepMod, getD_nil]
+  have hs : ∀ ss : List PSample, applySamples {} ss = ss := by
+    intro ss; simp [applySamples, hm, getD_nil]
+  have hp : ∀ ps : List PPar, applyPars {} ps = ps := by
+    intro ps; simp [applyPars, getD_nil]
+  cases w
+  simp [applyReq, applyChannels, applyMeas, applyObs, hs, hp, getD_nil]
+
+/-- pruned channels: exactly the named channels go, the survivors keep their order -/
+theorem prune_channels_exact (r : PReq) (cs : List PChan) (c' : PChan) :
+    c' ∈ applyChannels r cs ↔
+      ∃ c ∈ cs, c.name ∉ r.pruneChannels ∧ c' = { name := getD r.renChannels c.name, samples := applySamples r c.samples } := by
+  simp only [applyChannels, List.mem_map, List.mem_filter, Bool.not_eq_true', List.contains_eq_mem, decide_eq_false_iff_not]
+  constructor
+  · rintro ⟨c, ⟨hc, hn⟩, rfl⟩; exact ⟨c, hc, hn, rfl⟩
+  · rintro ⟨c, hc, hn, rfl⟩; exact ⟨c, ⟨hc, hn⟩, rfl⟩
+
+/-- observations follow the channels -/
+theorem prune_observations_exact (r : PReq) (os : List PObs) (o' : PObs) :
+    o' ∈ applyObs r os ↔ ∃ o ∈ os, o.name ∉ r.pruneChannels ∧ o' = { o with name := getD r.renChannels o.name } := by
+  simp only [applyObs, List.mem_map, List.mem_filter, Bool.not_eq_true', List.contains_eq_mem, decide_eq_false_iff_not]
+  constructor
+  · rintro ⟨c, ⟨hc, hn⟩, rfl⟩; exact ⟨c, hc, hn, rfl⟩
+  · rintro ⟨c, hc, hn, rfl⟩; exact ⟨c, ⟨hc, hn⟩, rfl⟩
+
+/-- pruned modifiers: exactly those named or of a named type go -/
+theorem prune_modifiers_exact (r : PReq) (ms : List PMod) (m' : PMod) :
+    m' ∈ applyMods r ms ↔
+      ∃ m ∈ ms, m.name ∉ r.pruneMods ∧ m.type ∉ r.pruneTypes ∧ m' = { m with name := getD r.renMods m.name } := by
+  simp only [applyMods, keepMod, List.mem_map, List.mem_filter, Bool.and_eq_true, Bool.not_eq_true', List.contains_eq_mem,
+    decide_eq_false_iff_not]
+  constructor
+  · rintro ⟨m, ⟨hm, h1, h2⟩, rfl⟩; exact ⟨m, hm, h1, h2, rfl⟩
+  · rintro ⟨m, hm, h1, h2, rfl⟩; exact ⟨m, ⟨hm, h1, h2⟩, rfl⟩
+
+/-- parameter configurations leave only with modifiers pruned **by name**: pruning by type (or anything else)
+keeps every configuration — a name can be shared with a modifier of a surviving type -/
+theorem prune_parameter_configs_exact (r : PReq) (ps : List PPar) (p' : PPar) :
+    p' ∈ applyPars r ps ↔ ∃ p ∈ ps, p.name ∉ r.pruneMods ∧ p' = { p with name := getD r.renMods p.name } := by
+  simp only [applyPars, List.mem_map, List.mem_filter, Bool.not_eq_true', List.contains_eq_mem, decide_eq_false_iff_not]
+  constructor
+  · rintro ⟨c, ⟨hc, hn⟩, rfl⟩; exact ⟨c, hc, hn, rfl⟩
+  · rintro ⟨c, hc, hn, rfl⟩; exact ⟨c, ⟨hc, hn⟩, rfl⟩
+
+theorem prune_by_type_keeps_parameter_configs (r : PReq) (h1 : r.pruneMods = []) (h2 : r.renMods = []) (ps : List PPar) :
+    applyPars r ps = ps := by
+  simp [applyPars, h1, h2, getD_nil]
+
+/-- a request that only removes channels leaves every surviving channel literally unchanged (hence, by C01, its
+rates and its share of the likelihood) -/
+theorem prune_channels_only_remainder_unchanged (drop : List String) (w : PWs) :
+    (applyReq { pruneChannels := drop } w).channels = w.channels.filter (fun c => !drop.contains c.name) ∧
+    (applyReq { pruneChannels := drop } w).measurements = w.measurements ∧
+    (applyReq { pruneChannels := drop } w).observations = w.observations.filter (fun o => !drop.contains o.name) := by
+  have hm : ∀ ms : List PMod, applyMods { pruneChannels := drop } ms = ms := by
+    intro ms; simp [applyMods, keepMod, getD_nil]
+  have hs : ∀ ss : List PSample, applySamples { pruneChannels := drop } ss = ss := by
+    intro ss; simp [applySamples, hm, getD_nil]
+  have hp : ∀ ps : List PPar, applyPars { pruneChannels := drop } ps = ps := by
+    intro ps; simp [applyPars, getD_nil]
+  refine ⟨?_, ?_, ?_⟩
+  · simp [applyReq, applyChannels, hs, getD_nil]
+  · simp [applyReq, applyMeas, hp, getD_nil]
+  · simp [applyReq, applyObs, getD_nil]
+
+/-- unknown names are refused, whatever else the request contains -/
+theorem prune_unknown_channel_refused (r : PReq) (w : PWs) (n : String) (hn : n ∈ r.pruneChannels ∨ n ∈ r.renChannels.map (·.1))
+    (hw : n ∉ w.channelNames) : pruneRename r w = .error .invalidWorkspaceOperation := by
+  have : r.valid w = false := by
+    unfold PReq.valid
+    have : (r.pruneChannels ++ r.renChannels.map (·.1)).all (w.channelNames.contains ·) = false := by
+      rw [List.all_eq_false]
+      exact ⟨n, by simpa using hn, by simpa using hw⟩
+    rw [this]; simp
+  simp [pruneRename, this]
+
+theorem prune_unknown_type_refused (r : PReq) (w : PWs) (t : String) (ht : t ∈ r.pruneTypes) (hw : t ∉ w.modTypes) :
+    pruneRename r w = .error .invalidWorkspaceOperation := by
+  have : r.valid w = false := by
+    unfold PReq.valid
+    have : r.pruneTypes.all (w.modTypes.contains ·) = false := by
+      rw [List.all_eq_false]
+      exact ⟨t, ht, by simpa using hw⟩
+    rw [this]; simp
+  simp [pruneRename, this]
+
+/-- renaming channels, then renaming back, restores the channel list -/
+theorem rename_channels_roundtrip (f g : List (String × String)) (cs : List PChan)
+    (h : ∀ c ∈ cs, getD g (getD f c.name) = c.name) :
+    applyChannels { renChannels := g } (applyChannels { renChannels := f } cs) = cs := by
+  have hm : ∀ (q : List (String × String)) (ms : List PMod), applyMods { renChannels := q } ms = ms := by
+    intro q ms; simp [applyMods, keepMod, getD_nil]
+  have hs : ∀ (q : List (String × String)) (ss : List PSample), applySamples { renChannels := q } ss = ss := by
+    intro q ss; simp [applySamples, hm, getD_nil]
+  simp only [applyChannels, List.contains_nil, Bool.not_false, List.filter_true, List.map_map, hs]
+  conv_rhs => rw [← List.map_id cs]
+  apply List.map_congr_left
+  intro c hc
+  cases c with
+  | mk n ss => simpa using h ⟨n, ss⟩ hc
 
 end Pyhf.Props.C16
